@@ -8,6 +8,7 @@ import Gemato.Model.Profile
 import Gemato.Model.Save
 import Gemato.Model.Cli
 import Gemato.Model.Faults
+import Gemato.Model.FastGen
 /-
   Line-protocol driver: one JSON request per input line, one JSON reply per
   output line. Strings travel as arrays of code points.
@@ -487,6 +488,44 @@ def opVerifyCalls (req : Json) : Except String Json := do
       | .error err => jErr err
       | .ok b => Json.mkObj [("ret", Json.bool b)])])
 
+-- fast generator scripts (C20) ------------------------------------------------------------------
+def jItem (it : FG.Item) : Json := Json.arr #[ftagName it.tag, jStr it.path, jStr it.file]
+
+/-- fastgen: {dir: node (the directory to generate, as it is now), old: text|null} -/
+def opFastgen (req : Json) : Except String Json := do
+  let n ← getNode (← req.getObjVal? "dir")
+  let old ← (match req.getObjVal? "old" with | .ok Json.null => pure none | .ok j => (getStr j).map some | .error _ => pure none)
+  match n with
+  | .dir _ _ kids =>
+    pure (Json.mkObj [("items", Json.arr ((FG.genItems kids).toArray.map jItem)),
+      ("compat", Json.bool (FG.compatMode kids)),
+      ("model", match FG.genManifest kids old with
+        | none => Json.mkObj [("err", "abstain")]
+        | some o => Json.mkObj [("name", jStr o.name), ("text", jStr o.text), ("unlink_plain", Json.bool o.unlinkPlain)])])
+  | _ => .error "fastgen: not a directory"
+
+/-- fg_order: {cats: [..], pkgs: [[cat, [pkg..]]..], cache_exists: [cat..], cat_exists: [cat..]} -/
+def opFgOrder (req : Json) : Except String Json := do
+  let cats ← getStrs (← req.getObjVal? "cats")
+  let pk ← (← (← req.getObjVal? "pkgs").getArr?).toList.mapM fun kv => do
+    let a ← kv.getArr?
+    pure ((← getStr a[0]!), (← getStrs a[1]!))
+  let ce ← getStrs (← req.getObjVal? "cache_exists")
+  let xe ← getStrs (← req.getObjVal? "cat_exists")
+  let pkgs : Str → List Str := fun c => ((pk.find? (·.1 == c)).map (·.2)).getD []
+  pure (Json.mkObj [("model", Json.arr ((FG.metaOrder cats pkgs (fun c => ce.contains c) (fun c => xe.contains c)).toArray.map jStr))])
+
+/-- fg_split: {generated, size, b2, s5, ts} -/
+def opFgSplit (req : Json) : Except String Json := do
+  let g ← getStr (← req.getObjVal? "generated")
+  let size ← (← req.getObjVal? "size").getNat?
+  let b2 ← getStr (← req.getObjVal? "b2")
+  let s5 ← getStr (← req.getObjVal? "s5")
+  let ts ← getStr (← req.getObjVal? "ts")
+  pure (Json.mkObj [("model", match FG.makeToplevel g size b2 s5 ts with
+    | none => Json.null
+    | some sp => Json.mkObj [("files_name", jStr sp.filesName), ("top_text", jStr sp.topText)])])
+
 def dispatch (req : Json) : Except String Json := do
   let op ← (← req.getObjVal? "op").getStr?
   match op with
@@ -505,6 +544,9 @@ def dispatch (req : Json) : Except String Json := do
   | "profile_fn" => opProfileFn req
   | "update" => opUpdate req
   | "verify_calls" => opVerifyCalls req
+  | "fastgen" => opFastgen req
+  | "fg_order" => opFgOrder req
+  | "fg_split" => opFgSplit req
   | _ => .error s!"unknown op {op}"
 
 end Drv
